@@ -625,7 +625,7 @@ impl World {
                 }
                 Event::Running => {}
                 Event::Print(s) => {
-                    if s == "\n" && self.rt.verif_probe().state == "RuntimeError" {
+                    if s == "\n" && self.rt.verif_error_pending() {
                         self.true_col = 0;
                         self.midline_stops += 1;
                         self.events.push(Ev::ForcedNl);
